@@ -255,7 +255,7 @@ def run(ctx, rep):
         nb, nsib, nlane = run_config(ctx, rep, cfg)
         if cfg is None:
             rep.floor("C06.R1", "CTR back ends", nb, 7)
-            rep.floor("C06.R1", "vector slot functions compared with their generic sibling", nsib, 24)
+            rep.floor("C06.R1", "vector slot functions compared with their generic sibling", nsib, 16)
             rep.floor("C06.R3", "CTR batch encryptors analysed lane-wise", nlane, 3)
         else:
             ctx.release(cfg)
